@@ -39,6 +39,8 @@ pub fn admission<S: Sch<P = UP>>(cfg: &Cfg, bound_supported: bool) -> Verdict {
 pub enum Attack {
     /// commitment made under cfg.polys[0].bound is presented with label bound `other`
     Relabel(usize),
+    /// commitment number `.0` (made under its polynomial's bound) is presented with label bound `.1`
+    RelabelAt(usize, usize),
     /// shifted commitment removed, label keeps the bound
     ShiftDrop,
     /// shifted commitments of polynomials 0 and 1 swapped
@@ -82,6 +84,10 @@ where
         Attack::Relabel(other) => {
             let c = w.comms[0].clone();
             w.comms[0] = LabeledCommitment::new(c.label().clone(), c.commitment().clone(), Some(other));
+        }
+        Attack::RelabelAt(i, other) => {
+            let c = w.comms[i].clone();
+            w.comms[i] = LabeledCommitment::new(c.label().clone(), c.commitment().clone(), Some(other));
         }
         Attack::LabelDrop => {
             let c = w.comms[0].clone();
